@@ -19,7 +19,7 @@ func checkC18(c *an.Ctx) {
 	c.Rule("C18.3", "watcher → task (E3): a lookup of the watcher's task in Config.Tasks dominates NewWatcher; absent → non-nil error")
 	c.Rule("C18.4", "depends_on → stage (E3/E5): after the last stage of a pipeline was added, every element of every stage's DependsOn itself (not a transformed copy) is looked up in the node set of the same graph; absent → non-nil error that fails the load")
 	c.Rule("C18.5", "inclusion cycles (E3/E7): on every success path of buildFromDefinition a recursive walk over Stage.Pipeline links runs for every pipeline, with a mark set allocated per starting pipeline that describes the current path (un-marked on every cycle-free exit), reports a revisit as a non-nil error, and that error fails the load")
-	c.Rule("C18.6", "consumers are guarded (E3/E5): the recursive consumers of Stage.Pipeline (scheduler, graph drawing) take their graphs from Config.Pipelines, which passed C18.4/C18.5")
+	c.Rule("C18.6", "consumers are guarded (E3/E5): the recursive consumers of Stage.Pipeline (scheduler, graph drawing) take their graphs from Config.Pipelines, which passed C18.4/C18.5; no function that follows Stage.Pipeline recursively can run during a load before the inclusion walk has been called")
 	c.Rule("C18.7", "a rejected configuration is rejected with an error, not with a hang (E8): no channel operation, Cond.Wait or polling loop is synchronously reachable from Loader.Load / LoadGlobalConfig unless it has an unconditional waker (the rule of C15.10 on the two entry points that accept or reject a configuration)")
 	c.NotDecided = append(c.NotDecided, "completeness of a validator beyond its decision row (e.g. one that inspects only part of what it ranges over is caught only if the range/lookup provenance changes)", "graphs built directly through the scheduler API, bypassing internal/config")
 	p := c.P
@@ -419,6 +419,42 @@ func checkC18(c *an.Ctx) {
 			}
 			c.Check(strings.HasPrefix(prov, "Config.Pipelines["), "C18.6", an.Short(site.Parent())+":graph("+an.Short(f)+")", site.Pos(), "the graph comes from the loaded configuration's pipelines", "the graph handed to "+an.Short(f)+" does not come from Config.Pipelines: "+prov)
 		}
+	}
+	// … and no consumer runs before the check: a function that follows Stage.Pipeline links recursively and can
+	// run while the configuration is still being loaded (other than the inclusion walk itself) meets the cycle
+	// the walk exists to reject
+	walker := inclusionWalker(c)
+	during := duringLoad(c)
+	nEarly := 0
+	for fn := range during {
+		if fn == walker || fn.Blocks == nil || !earlyPipelineConsumer(c, fn) {
+			continue
+		}
+		for _, e := range p.OutEdges(fn) {
+			if !an.InModule(e.Callee) {
+				continue
+			}
+			follows := false
+			for _, a := range e.Site.Common().Args {
+				if an.FieldProv(a) == "Stage.Pipeline" {
+					follows = true
+				}
+			}
+			if !follows {
+				continue
+			}
+			back := e.Callee == fn
+			if !back {
+				_, back = p.Reach([]*ssa.Function{e.Callee}, func(x an.CallEdge) bool { return an.InModule(x.Callee) })[fn]
+			}
+			if back {
+				nEarly++
+				c.Bad("C18.6", an.Short(fn)+":early-consumer", e.Site.Pos(), "%s follows included pipelines recursively and is reachable from Loader.Load: it can run before (or without) the inclusion check, on the very cycle that check is there to reject", an.Short(fn))
+			}
+		}
+	}
+	if nEarly == 0 {
+		c.OK("C18.6", "load:early-consumers", bfd.Pos(), "of the %d functions that can run during a load none follows Stage.Pipeline recursively before the inclusion walk has run", len(during))
 	}
 	if gate := p.Func("pkg/scheduler", "", "checkStatus"); gate != nil {
 		for _, ci := range an.CallsIn(gate, "github.com/sirupsen/logrus.Fatal") {
